@@ -708,7 +708,8 @@ func (db *RockDB) SetRange(ts int64, rawKey []byte, offset int, value []byte) (i
 	if len(value) == 0 {
 		return 0, nil
 	}
-	if len(value)+offset > MaxValueSize {
+	if offset > MaxValueSize || len(value)+offset > MaxValueSize {
+		// (the sum alone overflows for a huge offset)
 		return 0, errValueSize
 	}
 	keyInfo, realV, err := db.prepareKVValueForWrite(ts, rawKey, false)
